@@ -41,7 +41,8 @@ EXPLANATION = (
     "must equal the same components. (N3) GeminiClient._get_single constructs the protocol with "
     "parsed.normalized and the server consults middleware with request.normalized_url, which "
     "returns parsed_url.normalized. "
-    "(N4) upload() exchanges only the scheme prefix of the caller's URL (no unbounded str.replace on the wire URL)."
+    "(N4) upload() exchanges only the scheme prefix of the caller's URL (no unbounded str.replace on the wire URL). "
+    "(N5) the request line sent (parsed.normalized) has itself passed validate_url."
 )
 
 
